@@ -154,5 +154,220 @@ def incr_decr(ob, tier):
     return dict(res, verdict="holds", queries=tot_q, solver_s=round(tot_s, 2))
 
 
+def closure_of(callee):
+    """MIR function of the closure type named in a callee's generic arguments"""
+    m = re.search(r"\{closure@([\w/.\-]+:\d+:\d+): \d+:\d+\}", callee)
+    if not m:
+        return None
+    path = mirrun.dump("lib")
+    idx = mirrun._index["lib"]
+    cands = [(s, e) for n in idx for (s, e, head) in idx[n] if re.search(r"\(_1: (&mut |&)?%s[,)]" % re.escape(m.group(0)), head)]
+    if len(cands) != 1:
+        return None
+    from .. import parse
+    return parse.load_function(path, *cands[0])
+
+
+def per_ip_track(ob, tier):
+    """track_cluster_ip: the reverse index records the (token, cluster, ip) on every path and
+    the forward count grows by exactly one exactly when the triple is new"""
+    fn = mirrun.get_fn("lib", "::track_cluster_ip", sig="&mut SessionManager")
+    ex = engine.Executor(fn)
+    ev = ex.run()
+    for i, e in enumerate(ev):
+        e.seq = i
+    q = Q(ex.ctx)
+    res = {"paths": ex.stats["nodes"], "functions": [fn.name]}
+    rets = [e for e in ev if e.kind == "return"]
+    ins = [e for e in ev if e.kind == "call" and re.search(r"HashSet::<std::net::IpAddr>::insert$", e.callee)]
+    slot = [e for e in ev if e.kind == "call" and re.search(r"Entry::<'_, std::net::IpAddr, usize>::or_insert$", e.callee)]
+    writes = [e for e in ev if e.kind == "write"]
+    if len(rets) != 1 or len(ins) != 1 or len(slot) != 1:
+        return dict(res, verdict="inconclusive", why="shape: returns=%d reverse-index inserts=%d forward slots=%d" % (len(rets), len(ins), len(slot)))
+    ret, ins, slot = rets[0], ins[0], slot[0]
+    problems = []
+    if q([ret.guard, engine.NOT(ins.guard)])[0] != "unsat":
+        problems.append("track_cluster_ip can return without recording the (token, cluster, ip) in the reverse index")
+    new = ins.result.term
+    cw = [w for w in writes if w.place == "(*%s)" % slot.dest and w.value]
+    if not cw:
+        problems.append("the forward count is never advanced")
+    for w in cw:
+        if q([w.guard, engine.NOT(new)])[0] != "unsat":
+            problems.append("the forward count is advanced for a triple that was already tracked")
+        old = ex.initial.get(w.place)
+        if old is None or q([w.guard, engine.NOT("(= %s (bvadd %s %s))" % (w.value, old.term, engine.bv(1, 64)))])[0] != "unsat":
+            problems.append("the forward count is not advanced by exactly one")
+    if cw and q([ret.guard, ins.guard, new] + [engine.NOT(w.guard) for w in cw])[0] != "unsat":
+        problems.append("a newly tracked triple is not counted")
+    wit = [q([ret.guard, new])[0], q([ret.guard, engine.NOT(new)])[0]]
+    res["witness"] = "new / repeated triple both reachable: %s; %d counter writes" % (wit, len(cw))
+    res["witness_ok"] = all(w == "sat" for w in wit)
+    if problems:
+        return dict(res, verdict="counterexample", text="; ".join(problems), model={"problems": problems}, queries=q.n, solver_s=q.secs, replay={"reproduced": False, "why": "no native replay"})
+    return dict(res, verdict="holds", queries=q.n, solver_s=round(q.secs, 2))
+
+
+def per_ip_limit(ob, tier):
+    """cluster_ip_at_limit: false for limit 0 and for an already tracked token, otherwise the
+    stored count compared with `>=` against the limit; the limit is override.unwrap_or(global)"""
+    problems, fnames, nodes, tq, ts, wit = [], [], 0, 0, 0.0, []
+    # ---- effective_max_connections_per_ip
+    fn = mirrun.get_fn("lib", "::effective_max_connections_per_ip", sig="&SessionManager")
+    ex = engine.Executor(fn)
+    ev = ex.run()
+    q = Q(ex.ctx)
+    fnames.append(fn.name)
+    nodes += ex.stats["nodes"]
+    rets = [e for e in ev if e.kind == "return"]
+    glob_i = field_index("SessionManager", "max_connections_per_ip")
+    g0 = ex.initial.get(place(glob_i))
+    d = ex.initial.get("discr(_2)")
+    pay = ex.initial.get("(_2 as Some).0")
+    r0 = rets[0].env.get("_0") if len(rets) == 1 else None
+    if g0 is None or d is None or r0 is None or r0.term is None:
+        problems.append("effective_max_connections_per_ip: shape (global=%s override discr=%s result=%s)" % (g0, d, r0))
+    else:
+        if pay is None:
+            problems.append("effective_max_connections_per_ip never uses the override value")
+        elif q([rets[0].guard, "(= %s %s)" % (d.term, engine.bv(1, 64)), engine.NOT("(= %s %s)" % (r0.term, pay.term))])[0] != "unsat":
+            problems.append("a cluster override Some(n) does not resolve to n")
+        if q([rets[0].guard, "(= %s %s)" % (d.term, engine.bv(0, 64)), engine.NOT("(= %s %s)" % (r0.term, g0.term))])[0] != "unsat":
+            problems.append("no override does not resolve to the global max_connections_per_ip")
+        wit.append(q([rets[0].guard])[0])
+    tq += q.n
+    ts += q.secs
+    # ---- cluster_ip_at_limit
+    fn = mirrun.get_fn("lib", "::cluster_ip_at_limit", sig="&SessionManager")
+    ex = engine.Executor(fn)
+    ev = ex.run()
+    q = Q(ex.ctx)
+    fnames.append(fn.name)
+    nodes += ex.stats["nodes"]
+    rets = [e for e in ev if e.kind == "return"]
+    lim = [e for e in ev if e.kind == "call" and e.callee.endswith("::effective_max_connections_per_ip")]
+    isa = [e for e in ev if e.kind == "call" and re.search(r"Option::<&.*>::is_some_and::<", e.callee)]
+    trk = [e for e in isa if "HashSet" in e.callee]
+    cnt = [e for e in isa if re.search(r"Option::<&usize>::is_some_and", e.callee)]
+    if len(rets) != 1 or len(lim) != 1 or len(trk) != 1 or len(cnt) != 1:
+        problems.append("cluster_ip_at_limit: shape (returns=%d limit calls=%d tracked tests=%d count tests=%d)" % (len(rets), len(lim), len(trk), len(cnt)))
+    else:
+        ret, L, tracked, over = rets[0], lim[0].result.term, trk[0].result.term, cnt[0].result.term
+        r0 = ret.env["_0"].term
+        # the override handed in must be the one resolved
+        if lim[0].args[1]["text"].split()[-1] != "_5":
+            problems.append("the limit is not resolved from the caller's override")
+        zero = "(= %s %s)" % (L, engine.bv(0, 64))
+        if q([ret.guard, zero, r0])[0] != "unsat":
+            problems.append("limit 0 (unlimited) can report at-limit")
+        if q([ret.guard, trk[0].guard, tracked, r0])[0] != "unsat":
+            problems.append("a token that already holds the slot can be refused")
+        if q([ret.guard, engine.NOT(zero), trk[0].guard, engine.NOT(tracked), engine.NOT("(= %s %s)" % (r0, over))])[0] != "unsat":
+            problems.append("with a positive limit and an untracked token the answer is not the count test")
+        if q([ret.guard, engine.NOT(zero), engine.NOT(trk[0].guard)])[0] != "unsat":
+            problems.append("with a positive limit the reverse index is not consulted")
+        wit += [q([ret.guard, r0])[0], q([ret.guard, engine.NOT(r0)])[0]]
+        tq += q.n
+        ts += q.secs
+        # ---- the count test itself: (*count as u64) >= limit, limit captured from the resolved value
+        cf = closure_of(cnt[0].callee)
+        if cf is None:
+            problems.append("count-test closure not found")
+        else:
+            ex2 = engine.Executor(cf)
+            ev2 = ex2.run()
+            q2 = Q(ex2.ctx)
+            fnames.append(cf.name)
+            nodes += ex2.stats["nodes"]
+            r2 = [e for e in ev2 if e.kind == "return"]
+            c0 = ex2.initial.get("(*_2)")
+            caps = [v for k, v in ex2.initial.items() if re.match(r"^\(\*_\d+\)$", k) and k != "(*_2)"]
+            if len(r2) != 1 or c0 is None or len(caps) != 1:
+                problems.append("count-test closure: shape (returns=%d count=%s captures=%d)" % (len(r2), c0, len(caps)))
+            else:
+                got = r2[0].env["_0"].term
+                if q2([r2[0].guard, engine.NOT("(= %s (bvuge %s %s))" % (got, c0.term, caps[0].term))])[0] != "unsat":
+                    problems.append("the count test is not `count >= limit`")
+                wit.append(q2([r2[0].guard, got])[0])
+            tq += q2.n
+            ts += q2.secs
+            # the closure must capture the resolved limit (the local holding the call result)
+            cap_local = lim[0].dest
+            stmts = [st for b in fn.blocks.values() for st in b["stmts"]]
+            ok = False
+            for st in stmts:
+                m = re.search(r"= \{closure@[^}]*\} \{ \w+: (?:move|copy) (_\d+) \}$", st)
+                if m and re.search(re.escape(re.search(r"\{closure@[^}]*\}", cnt[0].callee).group(0)), st):
+                    ok = any(re.match(r"^%s = &%s$" % (m.group(1), cap_local), x) for x in stmts)
+            if not ok:
+                problems.append("the count test does not capture the resolved limit (%s)" % cap_local)
+    res = {"paths": nodes, "functions": fnames, "witness": "reachability %s" % wit, "witness_ok": bool(wit) and all(w == "sat" for w in wit),
+           "queries": tq, "solver_s": round(ts, 2)}
+    if problems:
+        return dict(res, verdict="counterexample", text="; ".join(problems), model={"problems": problems}, replay={"reproduced": False, "why": "no native replay"})
+    return dict(res, verdict="holds")
+
+
+GATES = [
+    ("::connect", "_1: &mut mux::router::Router", r"::backend_from_request|::new_h[12]_client$|::start_stream"),
+    ("::connect_to_backend", "_1: &mut TcpSession", r"::backend_from_cluster_id$|::set_back_socket$"),
+]
+
+
+def per_ip_gate(ob, tier):
+    """the two call sites of the per-(cluster, ip) gate: whenever the gate is consulted, a
+    backend is only selected / connected after it answered `false` AND the connection was
+    tracked; an at-limit answer returns Err before any backend work"""
+    problems, fnames, nodes, tq, ts, wit = [], [], 0, 0, 0.0, []
+    for suffix, sig, attempt_pat in GATES:
+        fn = mirrun.get_fn("lib", suffix, sig=sig)
+        ex = engine.Executor(fn, loop_bound=lambda f, h: 2, max_nodes=200000)
+        ev = ex.run()
+        for i, e in enumerate(ev):
+            e.seq = i
+        q = Q(ex.ctx)
+        fnames.append(fn.name)
+        nodes += ex.stats["nodes"]
+        who = fn.name.split("::")[-1]
+        gate = [e for e in ev if e.kind == "call" and e.callee.endswith("::cluster_ip_at_limit")]
+        track = [e for e in ev if e.kind == "call" and e.callee.endswith("::track_cluster_ip")]
+        attempts = [e for e in ev if e.kind == "call" and re.search(attempt_pat, e.callee)]
+        rets = [e for e in ev if e.kind == "return"]
+        if len(gate) != 1 or len(track) != 1 or not attempts or len(rets) != 1:
+            problems.append("%s: shape (gate calls=%d track calls=%d backend events=%d)" % (who, len(gate), len(track), len(attempts)))
+            continue
+        g, t = gate[0], track[0]
+        lim = g.result.term
+        for a in attempts:
+            nm = a.callee.split("::")[-1][:28]
+            if a.seq < g.seq:
+                if q([a.guard, g.guard])[0] != "unsat":
+                    problems.append("%s: %s happens before the per-IP gate is consulted" % (who, nm))
+                continue
+            if q([a.guard, g.guard, lim])[0] != "unsat":
+                problems.append("%s: %s is reachable although the per-IP gate answered at-limit" % (who, nm))
+            if q([a.guard, g.guard, engine.NOT(t.guard)])[0] != "unsat":
+                problems.append("%s: %s is reachable past the gate without tracking the connection" % (who, nm))
+        if q([t.guard, engine.NOT(engine.AND(g.guard, engine.NOT(lim)))])[0] != "unsat":
+            problems.append("%s: a connection is tracked without the gate having admitted it" % who)
+        # the same token / cluster / ip are checked and tracked
+        if g.args[1]["val"].term != t.args[1]["val"].term:
+            problems.append("%s: gate and tracking use different tokens" % who)
+        # at-limit => the function returns Err
+        r = rets[0]
+        d = r.env.get("discr(_0)")
+        if d is None or q([r.guard, g.guard, lim, "(= %s %s)" % (d.term, engine.bv(0, 64))])[0] != "unsat":
+            problems.append("%s: an at-limit answer does not end in Err" % who)
+        wit += [q([g.guard, lim])[0], q([t.guard])[0], q([engine.OR(*[a.guard for a in attempts if a.seq > g.seq])])[0]]
+        tq += q.n
+        ts += q.secs
+    res = {"paths": nodes, "functions": fnames, "witness": "gate refusal / tracking / backend work reachable: %s" % wit,
+           "witness_ok": bool(wit) and all(w == "sat" for w in wit), "queries": tq, "solver_s": round(ts, 2)}
+    if problems:
+        return dict(res, verdict="counterexample", text="; ".join(problems), model={"problems": problems}, replay={"reproduced": False, "why": "no native replay"})
+    return dict(res, verdict="holds")
+
+
 def run(ob, tier):
-    return {"check_limits": check_limits, "incr_decr": incr_decr}[ob["which"]](ob, tier)
+    return {"check_limits": check_limits, "incr_decr": incr_decr, "per_ip_track": per_ip_track, "per_ip_limit": per_ip_limit,
+            "per_ip_gate": per_ip_gate}[ob["which"]](ob, tier)
